@@ -6,23 +6,28 @@ import S3V.Thm.SigV4Perm
 Model: `S3V/Model/SigV4.lean` (literal mirror of `sig_v4/*`, `http/ordered_*`, `ops/signature.rs`);
 specification: `S3V/Spec/SigV4.lean` (from the AWS documents). `sha256hex` and `hmac` are arbitrary functions in
 every statement. Quantifiers: all requests (any byte strings, any number of headers / parameters), no size bound.
-The theorems marked `_partial` exclude, by the explicit decidable predicates `wf` / `wfHeaderAuth`, exactly the
-regions in which the unchanged code deviates from the specification; each excluded region has a kernel-checked
-counterexample in `S3V/Findings/C05.lean` and a witness replayed on the real code (`known_findings.d/sigv4.json`).
+State of the code: with the repairs b7c08fd (canonical headers collapse space runs and join repeated lines), 4011296
+(algorithm token and scope date checked) and 10af2bf (a listed header must be in the request). The theorems marked
+`_partial` exclude, by the explicit decidable predicates `wf` / `wfHeaderAuth`, what still deviates or lies outside the
+specification's domain: duplicate query names whose values do not ascend (OPEN class `sigv4-dup-query-unsorted`, kept
+for compatibility with a deployed SDK), and `SignedHeaders` lists that repeat a name or list `authorization` (the
+documents do not admit them). Kernel-checked counterexamples are in `S3V/Findings/C05.lean`.
 -/
 namespace S3V.C05
 open S3V S3V.SigV4
 
 /-- FULL statement: the canonical request the code builds is the specified one for every request.
-    False on the unchanged tree (`Findings.C05`: inner space runs, repeated header lines, absent signed headers,
-    duplicate query names with unsorted values). -/
+    False (`Findings.C05`): duplicate query names with unsorted values (open finding); and, at the level of this
+    function alone, a listed name without a header line (the caller `v4_check_header_auth` refuses such requests
+    before it gets here) or listed twice. -/
 def C05_canon_impl_eq_spec_full : Prop :=
   ∀ (sha256hex : Bytes → Bytes) (onMissing : Bytes → Option Bytes) (r : Req),
     canonImpl sha256hex onMissing r = canonSpec sha256hex r
 
 /-- the canonical request `create_canonical_request` produces from what `v4_check_header_auth` feeds it equals the
-    specification's canonical request, for every request outside the finding classes (`wf`), whatever the hash and
-    whatever the `on_missing` fallback -/
+    specification's canonical request — header values with any white space, any number of lines per header — for every
+    request satisfying `wf` (listed names distinct, not `authorization`, each carried by a line; duplicate query names
+    with ascending values), whatever the hash and whatever the `on_missing` fallback -/
 theorem C05_canon_impl_eq_spec_partial (sha256hex : Bytes → Bytes) (onMissing : Bytes → Option Bytes) (r : Req)
     (h : wf r = true) : canonImpl sha256hex onMissing r = canonSpec sha256hex r :=
   canon_impl_eq_spec sha256hex onMissing r h
@@ -40,25 +45,27 @@ theorem C05_accept_conditions (sha256hex : Bytes → Bytes) (hmac : Bytes → By
   header_accept_iff sha256hex hmac look c ak region service
 
 /-- FULL statement of "accepted iff the presented signature is the specified one under the scope of the
-    credential": false on the unchanged tree (`Findings.C05`: the algorithm token and the scope date are not
-    checked, plus the canonicalisation classes). -/
+    credential": false (`Findings.C05`) only through the open class `sigv4-dup-query-unsorted` (and `SignedHeaders`
+    lists outside the specification's domain). -/
 def C05_verdict_iff_full : Prop :=
   ∀ (sha256hex : Bytes → Bytes) (hmac : Bytes → Bytes → Bytes) (look : Bytes → Option Bytes) (c : Ctx)
     (raw : List (Bytes × Bytes)) (ak region service : Bytes), orderedHeaders raw = some c.hs →
     (v4CheckHeaderAuth sha256hex hmac (some look) c = .accept ak region service ↔
-      ∃ a secret d payload, HeaderChecks look c a secret d payload ∧ a.algorithm = b!"AWS4-HMAC-SHA256" ∧
+      ∃ a secret d payload, HeaderChecks look c a secret d payload ∧
         a.credential.accessKey = ak ∧ a.credential.region = region ∧ a.credential.service = service ∧
         a.signature = SigV4Spec.signature sha256hex hmac secret d.fmtIso8601 ⟨a.credential.date, region, service⟩
           ((c.req raw a.signedHeaders payload).toSpec sha256hex))
 
-/-- for every context outside the finding classes (`wfHeaderAuth`), for arbitrary hash and MAC: the request is
-    accepted as (access key, region, service) iff the checks pass and the presented signature is
-    `Spec.signature` of the request under that key's secret, the timestamp of `x-amz-date` and the credential scope -/
+/-- for every context satisfying `wfHeaderAuth` (listed names distinct and not `authorization`; duplicate query names
+    with ascending values), for arbitrary hash and MAC: the request is accepted as (access key, region, service) iff
+    the checks pass — among them: algorithm AWS4-HMAC-SHA256, scope date = day of `x-amz-date`, every listed header
+    present — and the presented signature is `Spec.signature` of the request under that key's secret, the timestamp
+    of `x-amz-date` and the credential scope -/
 theorem C05_verdict_iff_partial (sha256hex : Bytes → Bytes) (hmac : Bytes → Bytes → Bytes)
     (look : Bytes → Option Bytes) (c : Ctx) (raw : List (Bytes × Bytes)) (ak region service : Bytes)
-    (hraw : orderedHeaders raw = some c.hs) (hwf : wfHeaderAuth c raw = true) :
+    (hraw : orderedHeaders raw = some c.hs) (hwf : wfHeaderAuth c = true) :
     v4CheckHeaderAuth sha256hex hmac (some look) c = .accept ak region service ↔
-      ∃ a secret d payload, HeaderChecks look c a secret d payload ∧ a.algorithm = b!"AWS4-HMAC-SHA256" ∧
+      ∃ a secret d payload, HeaderChecks look c a secret d payload ∧
         a.credential.accessKey = ak ∧ a.credential.region = region ∧ a.credential.service = service ∧
         a.signature = SigV4Spec.signature sha256hex hmac secret d.fmtIso8601 ⟨a.credential.date, region, service⟩
           ((c.req raw a.signedHeaders payload).toSpec sha256hex) :=
@@ -90,7 +97,7 @@ theorem C05_tamper_changes_signature (sha256hex : Bytes → Bytes) (hmac : Bytes
     than `r`, it is not accepted under that secret, timestamp and scope -/
 theorem C05_tamper_rejected (sha256hex : Bytes → Bytes) (hmac : Bytes → Bytes → Bytes)
     (look : Bytes → Option Bytes) (c : Ctx) (raw : List (Bytes × Bytes)) (ak region service : Bytes)
-    (hraw : orderedHeaders raw = some c.hs) (hwf : wfHeaderAuth c raw = true)
+    (hraw : orderedHeaders raw = some c.hs) (hwf : wfHeaderAuth c = true)
     (r : SigV4Spec.Request) (hr : LineSafe r)
     (hacc : v4CheckHeaderAuth sha256hex hmac (some look) c = .accept ak region service) :
     ∃ a secret d payload, HeaderChecks look c a secret d payload ∧
@@ -99,7 +106,7 @@ theorem C05_tamper_rejected (sha256hex : Bytes → Bytes) (hmac : Bytes → Byte
          ((c.req raw a.signedHeaders payload).toSpec sha256hex) →
        a.signature = SigV4Spec.signature sha256hex hmac secret d.fmtIso8601 ⟨a.credential.date, region, service⟩ r →
        signedView r = signedView ((c.req raw a.signedHeaders payload).toSpec sha256hex)) := by
-  obtain ⟨a, secret, d, payload, hc, _, _, _, _, hsig⟩ :=
+  obtain ⟨a, secret, d, payload, hc, _, _, _, hsig⟩ :=
     (header_verdict_iff_spec sha256hex hmac look c raw ak region service hraw hwf).mp hacc
   refine ⟨a, secret, d, payload, hc, ?_⟩
   intro hsafe hnc hpres
@@ -145,8 +152,8 @@ theorem C05_percent_spelling_invariant (keepSlash : Bool) (s : Bytes) :
 def exampleReq : Req :=
   { method := b!"PUT", path := b!"/bkt/a b/é",
     qs := [(b!"prefix", b!"a/b"), (b!"prefix", b!"c"), (b!"x-id", b!"")],
-    headers := [(b!"Host", b!"s3.example.com"), (b!"x-amz-meta-a", b!"  two words "), (b!"X-Amz-Date", b!"20130524T000000Z"),
-                (b!"x-unsigned", b!"a  b")],
+    headers := [(b!"Host", b!"s3.example.com"), (b!"x-amz-meta-a", b!"  two   words "), (b!"X-Amz-Date", b!"20130524T000000Z"),
+                (b!"X-Amz-Meta-A", b!"second line"), (b!"x-unsigned", b!"a  b")],
     signed := [b!"x-amz-date", b!"host", b!"x-amz-meta-a"], payload := .unsigned }
 
 example : wf exampleReq = true := by decide
@@ -159,8 +166,8 @@ def exampleCtx : Ctx :=
            (b!"x-amz-content-sha256", b!"UNSIGNED-PAYLOAD"), (b!"x-amz-date", b!"20130524T000000Z")],
     body := [], bodyOnce := true, contentLength := none, decodedContentLength := none }
 
-example : orderedHeaders exampleCtx.hs = some exampleCtx.hs ∧ wfHeaderAuth exampleCtx exampleCtx.hs = true := by decide
-example : wf { exampleReq with signed := [b!"host", b!"x-unsigned"] } = false := by decide
+example : orderedHeaders exampleCtx.hs = some exampleCtx.hs ∧ wfHeaderAuth exampleCtx = true := by decide
+example : wf { exampleReq with signed := [b!"host", b!"x-absent"] } = false := by decide
 example : wf { exampleReq with qs := [(b!"prefix", b!"c"), (b!"prefix", b!"a/b")] } = false := by decide
 
 end S3V.C05
